@@ -4,5 +4,5 @@ CONSTANTS
   Count = 2
   HashCursor = TRUE
   MaxMut = 2
-INVARIANTS Guarantee Terminates
+INVARIANTS Guarantee Terminates CallAgrees
 CHECK_DEADLOCK FALSE
